@@ -34,7 +34,8 @@ def remove (t : TableIDs) (id : Nat) : TableIDs × Bool :=
         let a := t.tables.getD index 0
         let b := t.tables.getD last 0
         let tables := (t.tables.set index b).set last a
-        (tables, AL.insert t.indices b index)
+        -- `t.indices[t.tables[index]] = index` reads the slice AFTER the swap
+        (tables, AL.insert t.indices (tables.getD index 0) index)
       else (t.tables, t.indices)
     ({ tables := tables.take last, indices := AL.erase indices id }, true)
 
